@@ -6,7 +6,7 @@ TECH = "deterministic simulation with fault injection"
 CHECKS = {
     "C01": ("exploration", "§5 C01",
             "Seeded whole-pipeline simulation (real CLI on SimFS, seeded solver peer, option swarm); every emitted block is compared with its input by a reference EVM interpreter on seeded states. Sampling: a clean batch is evidence, not proof.",
-            "Trusts the reference interpreter R1 (gsim/ref/evm.py), z3 4.8.12 as honest peer, sampled 256-bit states; OptiMathSAT is a wire-format stub.",
+            "Trusts the reference interpreter R1 (gsim/ref/evm.py), z3 4.8.12 as honest peer, sampled 256-bit states; OptiMathSAT is a wire-format stub. A deterministic supplement (rule sweep, pseudo-operand sweep, every block of <= 3 instructions over a 26-word vocabulary) runs through the same pipeline and oracle in every run.",
             TECH + ": seeded solver-peer replies and option swarm over the real pipeline, reference-interpreter oracle"),
     "C08": ("exploration", "§5 C08",
             "Seeded whole-pipeline simulation with a solver peer biased to tempt the accept/reject logic (non-optimal, cost-maximising, no model/unsat with and without a greedy candidate, greedy forced to fail); every emitted block is priced by the independent cost model R4 and compared with its input; printed totals are compared with R4 sums over the input and the emitted file.",
@@ -42,11 +42,11 @@ CHECKS = {
             TECH + ": flag-value histories within one process versus a pristine process, independent pricing"),
     "C02": ("exploration", "§5 C02",
             "The schedule quantifier is literal: the real front-end's specification of each sub-block is executed by a reference evaluator under seeded linearisations of its operations that respect only the declared ordering constraints and data flow (uniform / reverse / stores-first / loads-first / depth-first policies) plus targeted two-order schedules for every unordered pair of accesses that collide on the concrete state, and compared with the reference interpreter running the original instructions. Failing blocks are minimised.",
-            "Trusts R1/R3 (gsim/ref/evm.py, speceval.py); states and schedules sampled (8x8 per specification quick, 32x40 thorough); no offset wrap modulo 2^256.",
+            "Trusts R1/R3 (gsim/ref/evm.py, speceval.py); states and schedules sampled (8x8 per specification quick, 32x40 thorough); no offset wrap modulo 2^256. A deterministic supplement evaluates every block of <= 3 instructions over a 19-word vocabulary (and all 4-instruction blocks over the memory vocabulary) under the same schedules.",
             TECH + ": seeded scheduler over the specification's partial order, targeted reorderings of colliding unordered accesses"),
     "C05": ("fault_enumeration", "§5 C05",
             "Single-edit semantic mutants of a block (operand swap, signed/unsigned and shift-kind substitution, constant change, dropped/duplicated/reordered store, wrong DUP/SWAP index, dropped POP) are enumerated at every applicable position and judged by the real checker; every accepted mutant is run against the reference interpreter on 48 states. Reflexivity on every base block (raw comparison must not raise). A byzantine solver peer corrupts decoded sequences in whole-pipeline runs. The forves adapter is run against a fake peer that sees only the rendered file: rendered segments must be exactly the compared sequences, peer faults must never become 'true'.",
-            "Mutants capped at 14 (quick) / 40 (thorough) per base block, base blocks sampled; R1 decides distinguishability; forves binary is a fake peer.",
+            "Mutants capped at 14 (quick) / 40 (thorough) per base block, base blocks sampled; R1 decides distinguishability; forves binary is a fake peer. A deterministic supplement compares every block of <= 3 instructions over a 24-word vocabulary with itself and with a last-instruction substitute.",
             TECH + ": enumerated single-edit corruption of checker inputs and solver replies, fake external-checker peer"),
     "C06": ("exploration", "§5 C06",
             "The real encoder's problem text for a specification/option set is answered by several simulated solver peers (optimal, arbitrary models under random phase, reweighted and cost-maximising objectives, n-th model under blocking clauses); each reply is decoded by the repo's own model reader and validated by the symbolic stack executor R2 within the declared bounds; every emitted .smt2 is checked by an own SMT-LIB reader and by z3.",
@@ -58,7 +58,7 @@ CHECKS = {
             TECH + ": optimising peer + option swarm against a brute-force reference synthesiser"),
     "C16": ("exploration", "§5 C16",
             "For each specification the history of realizing sequences observed (solver peers of several kinds, greedy, brute force for bounds <= 6), each validated by R2, is confronted with the published bounds: a witness within init_progr_len/max_sk_sz must exist (infeasibility only reported when brute force exhausts the space), no realizing sequence is shorter than min_length, original_instrs equals the reported sub-block.",
-            "Infeasibility verdicts only for init_progr_len <= 6; larger instances without witness are undecided and counted.",
+            "Infeasibility verdicts only for init_progr_len <= 6; larger instances without witness are undecided and counted. A deterministic supplement (nested rule patterns in three shapes; every block of <= 3 instructions over a 19-word vocabulary, front-end only) is judged by the brute-force search alone.",
             TECH + ": peer as witness finder / length optimiser, history of validated sequences, brute-force reference"),
 }
 NA = {
